@@ -84,10 +84,15 @@ func limitsScript(wtmax, maxfs, nmax uint64, rng *rand.Rand) []Op {
 	// --- file sizes around maxfilesize
 	f := s.add(Op{Proc: "create", H: dh, Name: "big"})
 	fh := fmt.Sprintf("@%d", f)
-	for _, sz := range []uint64{maxfs + 1, maxfs, maxfs - 1, 1<<64 - 1, 1 << 63, maxfs + 4096} {
+	for i, sz := range []uint64{maxfs + 1, maxfs, maxfs - 1, 1<<64 - 1, 1 << 63, maxfs + 4096} {
 		s.add(Op{Proc: "setattr", H: fh, HasSize: true, Size: sz})
 		s.add(Op{Proc: "getattr", H: fh})
+		// the same size together with times: refused or applied as a whole
+		s.add(Op{Proc: "setattr", H: fh, HasSize: true, Size: sz, At: TimeSpec{How: 2, Sec: uint32(1000 + i), Nsec: 5}, Mt: TimeSpec{How: 2, Sec: uint32(2000 + i), Nsec: 6}})
+		s.add(Op{Proc: "getattr", H: fh})
 	}
+	s.add(Op{Proc: "setattr", H: dh, HasSize: true, Size: 100, At: TimeSpec{How: 2, Sec: 77, Nsec: 1}, Mt: TimeSpec{How: 2, Sec: 78, Nsec: 2}})
+	s.add(Op{Proc: "getattr", H: dh})
 	s.add(Op{Proc: "setattr", H: fh, HasSize: true, Size: maxfs})
 	s.add(Op{Proc: "read", H: fh, Off: maxfs - 10, Cnt: 100})
 	s.add(Op{Proc: "read", H: fh, Off: maxfs, Cnt: 100})
@@ -182,5 +187,51 @@ func pagingScript(rng *rand.Rand, variant int) []Op {
 			s.add(Op{Proc: "enum", H: dh, Count: uint64(90 + 40*k), Mode: uint32(k % 2), Maxcount: uint64(300 + 200*k), Dircount: 1 << 20, Stable: 1})
 		}
 	}
+	return s.ops
+}
+
+// inodeFullScript fills the inode table (without waiting or dumping after every call), then works in the few
+// numbers that are left: a freed number is handed out again at once, while its former owner is still cached.
+func inodeFullScript(ninode uint64, rng *rand.Rand, final bool) []Op {
+	s := &scripter{}
+	s.add(Op{Proc: "autoidle:2"})
+	d := s.add(Op{Proc: "mkdir", H: "root", Name: "fill"})
+	dh := fmt.Sprintf("@%d", d)
+	// root, "fill" and number 0 are taken; leave three numbers free
+	for i := uint64(0); i+6 < ninode; i++ {
+		s.add(Op{Proc: "create", H: dh, Name: fmt.Sprintf("i%d", i)})
+	}
+	// (the whole run is judged on replies only: decoding a disk with 32 768 objects after every call is out of
+	// reach of the extracted abstraction function)
+	for round := 0; round < 3; round++ {
+		a := s.add(Op{Proc: "mkdir", H: "root", Name: fmt.Sprintf("D%d", round)})
+		ah := fmt.Sprintf("@%d", a)
+		s.add(Op{Proc: "create", H: ah, Name: "x"})
+		s.add(Op{Proc: "symlink", H: ah, Name: "y", Data: pat(30, round)})
+		s.add(Op{Proc: "remove", H: ah, Name: "x"})
+		s.add(Op{Proc: "remove", H: ah, Name: "y"})
+		s.add(Op{Proc: "rmdir", H: "root", Name: fmt.Sprintf("D%d", round)})
+		b := s.add(Op{Proc: "mkdir", H: "root", Name: fmt.Sprintf("E%d", round)})
+		bh := fmt.Sprintf("@%d", b)
+		s.add(Op{Proc: "readdirplus", H: bh, Dircount: 1 << 20, Maxcount: 1 << 20})
+		s.add(Op{Proc: "getattr", H: ah}) // the old handle is dead although the number lives again
+		s.add(Op{Proc: "create", H: bh, Name: "z"})
+		s.add(Op{Proc: "remove", H: bh, Name: "z"})
+		s.add(Op{Proc: "rmdir", H: "root", Name: fmt.Sprintf("E%d", round)})
+		s.add(Op{Proc: "lookup", H: "root", Name: fmt.Sprintf("E%d", round)})
+		f := s.add(Op{Proc: "create", H: "root", Name: fmt.Sprintf("F%d", round)})
+		s.add(Op{Proc: "write", H: fmt.Sprintf("@%d", f), Off: 0, Cnt: 5000, Stable: 2, Data: pat(5000, 3+round)})
+		s.add(Op{Proc: "remove", H: "root", Name: fmt.Sprintf("F%d", round)})
+	}
+	// no number left: creation must fail cleanly
+	for i := 0; i < 4; i++ {
+		s.add(Op{Proc: "create", H: "root", Name: fmt.Sprintf("last%d", i)})
+	}
+	s.add(Op{Proc: "mkdir", H: "root", Name: "toomany"})
+	if final {
+		// one full decode of the disk with its 32 768 objects (about a minute in the model driver)
+		s.add(Op{Proc: "restart"})
+	}
+	s.add(Op{Proc: "lookup", H: dh, Name: "i7"})
 	return s.ops
 }
